@@ -133,6 +133,12 @@ def instances(tier, seed):
             sp.params = list(sp.params) + [Sym('mc', 'control', rows=2, cols=2, value=None)]
             sp.cons = list(sp.cons) + [Con('<=', X(0) * Pg('mc', 1) + Pg('mc', 2), Pg('mc', 0) + Pg('mc', 3) + 900)]
             add(kind='order', spec=fam.with_horizon(fill_values(sp, 3), H[0]), cfg=Cfg(method, N=3, M=1, intg='rk', grid=fam.G_UNI, degree=2, scheme='radau'), order=order)
+    # one set_value call on a concatenation that contains a MATRIX-valued parameter followed by another parameter
+    for oi, order in enumerate([['mg2', 'T'], ['T', 'mg2'], ['T', 'mg2', 'a2', 'T2']]):
+        sp = pmodel()
+        sp.params = list(sp.params) + [Sym('g2', rows=2, value=[[Fr(15)], [Fr(16)]])]
+        sp.cons = list(sp.cons) + [Con('<=', X(1) * Pg('g2', 0), Pg('g2', 1) + 800)]
+        add(kind='order', spec=fam.with_horizon(fill_values(sp, 2), H[0]), cfg=Cfg(['MS', 'DC', 'SS'][oi], N=2, M=1, intg='rk', grid=fam.G_UNI, degree=2, scheme='radau'), order=order)
     # a PARAMETRIC horizon on a grid with localized time variables and no expression guess at all: the guesses of the local time variables follow the value
     for oi, order in enumerate([['T', 'pT2'], ['pT2', 'T'], ['T', 'pT2', 'a2', 'T2']]):
         for method, g in (('MS', fam.G_UNI_LT), ('DC', fam.G_FREE), ('SS', fam.G_UNI_LT0), ('MS', fam.G_GEO_LOC_LT)):
@@ -271,6 +277,8 @@ def run_order(item):
     }
     newvals['pT2'] = ('pT', Fr(5, 2))
     newvals['mc2'] = ('mc', [[Fr(500 + 10 * r_ + k) for k in range(2 * N)] for r_ in range(2)])
+    # ONE set_value call on horzcat(matrix parameter m (2x2), vector parameter g2 (2x1)): the value is split over the symbols in column-major order
+    newvals['mg2'] = ('m+g2', ([[Fr(61), Fr(63)], [Fr(62), Fr(64)]], [[Fr(71)], [Fr(72)]]))
     for p_ in spec.params:          # '<name>0' = set the parameter back to its originally declared value
         newvals[p_.name + '0'] = (p_.name, copy.deepcopy(p_.value))
     s_cur = copy.deepcopy(spec)
@@ -282,6 +290,12 @@ def run_order(item):
     for op in order:
         if op in ('T', 'T2'):
             inst = Inst(s_cur, cfg, seed=item.get('seed', 0), built=b, solver=False)   # transcribes (or re-uses the transcription; declaring the solver again would invalidate it)
+        elif op == 'mg2':
+            (vm, vg) = newvals[op][1]
+            [p for p in s_cur.params if p.name == 'm'][0].value = vm
+            [p for p in s_cur.params if p.name == 'g2'][0].value = vg
+            with quiet():
+                b.stage.set_value(ca.horzcat(b.psym['m'], b.psym['g2']), ca.DM(np.array([[float(vm[r_][0]), float(vm[r_][1]), float(vg[r_][0])] for r_ in range(2)])))
         else:
             name, val = newvals[op]
             sym = [p for p in s_cur.params if p.name == name][0]
